@@ -364,6 +364,76 @@ pub fn run(ctx: &Ctx, replay: Option<&serde_json::Value>) {
             });
         }
     }
+    // second family: the outcome hangs on strings that exist only during an evaluation (they are
+    // interned temporarily; what a first call leaves behind must not change a second call)
+    {
+        let s = |x: &str| Op::Value(Term::s(x));
+        let var = |x: &str| Op::Value(Term::v(x));
+        let concat_eq = |l1: Op, l2: Op, r1: Op, r2: Op, op: Bin| Expr {
+            ops: vec![l1, l2, Op::Binary(Bin::Add), r1, r2, Op::Binary(Bin::Add), Op::Binary(op)],
+        };
+        let type_eq = Expr {
+            ops: vec![Op::Value(Term::Int(1)), Op::Unary(Un::TypeOf), Op::Value(Term::Int(2)), Op::Unary(Un::TypeOf), Op::Binary(Bin::HeterogeneousEqual)],
+        };
+        let exprs: Vec<(Vec<Pred>, Expr)> = vec![
+            (vec![], concat_eq(s("a"), s("b"), s("a"), s("b"), Bin::Equal)),
+            (vec![], concat_eq(s("fresh-"), s("one"), s("fresh-"), s("one"), Bin::HeterogeneousEqual)),
+            (vec![Pred::new("p1", vec![Term::v("s")])], concat_eq(var("s"), s("/x"), var("s"), s("/x"), Bin::Equal)),
+            (
+                vec![Pred::new("p1", vec![Term::v("s")]), Pred::new("p1", vec![Term::v("t")])],
+                concat_eq(var("s"), var("t"), var("s"), var("t"), Bin::Equal),
+            ),
+            (vec![], type_eq),
+        ];
+        for (body, e) in exprs {
+            for kind in 0..4 {
+                let q = Rule::query(body.clone(), vec![e.clone()], vec![]);
+                let mut authorizer = AuthorizerAst::default();
+                let mut block = Block {
+                    facts: vec![Pred::new("p1", vec![Term::s("left")]), Pred::new("p1", vec![Term::s("right")])],
+                    ..Default::default()
+                };
+                match kind {
+                    0 => block.checks.push(Check { kind: CheckKind::One, queries: vec![q] }),
+                    1 => block.checks.push(Check { kind: CheckKind::All, queries: vec![q] }),
+                    2 => authorizer.block.checks.push(Check { kind: CheckKind::Reject, queries: vec![q] }),
+                    _ => authorizer.policies.push(Policy { allow: false, queries: vec![q] }),
+                }
+                // the computed strings also occur as constants of a policy that is looked at
+                // later: whatever interns them then must not change an earlier comparison on a
+                // second call
+                authorizer.policies.push(Policy {
+                    allow: false,
+                    queries: vec![Rule::query(
+                        vec![Pred::new(
+                            "marker",
+                            ["ab", "fresh-one", "integer", "left/x", "right/x", "leftleft", "leftright", "rightleft", "rightright"].iter().map(|x| Term::s(x)).collect(),
+                        )],
+                        vec![],
+                        vec![],
+                    )],
+                });
+                authorizer.policies.push(Policy {
+                    allow: true,
+                    queries: vec![Rule::query(vec![], vec![Expr { ops: vec![Op::Value(Term::Bool(true))] }], vec![])],
+                });
+                let kp = |s: u64| vcore::keys::KeyPlan { alg: vcore::keys::Alg::Ed, seed: 950 + s };
+                targeted.push(Case {
+                    plan: TokenPlan {
+                        keys: vec![kp(1)],
+                        root: kp(2),
+                        root_key_id: None,
+                        authority: block,
+                        first_next: kp(3),
+                        steps: vec![],
+                        seal: false,
+                    },
+                    authorizer,
+                    probes: vec![],
+                });
+            }
+        }
+    }
     ctx.run_list("targeted", &targeted, |c, r| test_case(ctx, c, r));
     let cases = ctx.tier.pick(3000, 30_000);
     let cfg = GenCfg {
